@@ -85,6 +85,17 @@ class Gen:
                     vs.append({"name": v, "key": key})
                 t["variants"] = vs
             self.types.append(t)
+        # fixed members of the corpus: spellings the random part does not produce — raw identifiers (`r#type`) as field names, and
+        # doc comments next to `#[rename]` (a doc comment is an attribute too)
+        self.types.append({"name": "TRaw", "kind": "named", "agree_only": True,
+                           "fields": [{"name": "r#type", "ty": "i64", "key": "r#type"}, {"name": "r#ref", "ty": "Option<String>", "key": "r#ref"},
+                                      {"name": "plain", "ty": "bool", "key": "plain"}]})
+        self.types.append({"name": "TDoc", "kind": "named",
+                           "fields": [{"name": "f0", "ty": "i64", "key": "documented key", "doc": "the first field"},
+                                      {"name": "f1", "ty": "Option<String>", "key": "f1"}]})
+        self.types.append({"name": "TDocEnum", "kind": "enum",
+                           "variants": [{"name": "InProgress", "key": "in progress", "doc": "work has started"}, {"name": "Done", "key": "Done"},
+                                        {"name": "Failed", "key": "failed!", "doc": "it did not work"}]})
 
     def render_types(self):
         out = []
@@ -93,6 +104,8 @@ class Gen:
                 out.append("#[derive(FromJson, IntoJson)]")
                 out.append(f"pub struct {t['name']} {{")
                 for f in t["fields"]:
+                    if f.get("doc"):
+                        out.append(f"    /// {f['doc']}")
                     if f["key"] != f["name"]:
                         out.append(f"    #[rename = {rust_str(f['key'])}]")
                     out.append(f"    pub {f['name']}: {f['ty']},")
@@ -111,6 +124,8 @@ class Gen:
                 out.append("#[derive(FromJson, IntoJson)]")
                 out.append(f"pub enum {t['name']} {{")
                 for v in t["variants"]:
+                    if v.get("doc"):
+                        out.append(f"    /// {v['doc']}")
                     if v["key"] != v["name"]:
                         out.append(f"    #[rename = {rust_str(v['key'])}]")
                     out.append(f"    {v['name']},")
@@ -312,6 +327,11 @@ def run(chk):
             want = [(f["name"], f["key"]) for f in t["fields"]]
             rd = keys_read(hf)
             wr, tree = keys_written(ht)
+            if t.get("agree_only"):
+                # raw identifiers: what the key of `r#type` should be is the derive's choice; that both directions make the same choice is not
+                chk.ob("R2.key_maps_agree", f"corpus::{name}", f"{site}: from_json and to_json use the same keys, in the same order (raw-identifier fields)",
+                       [k for _, k in rd] == [k for _, k in wr] and len(rd) == len(want), f"read {rd} / written {wr}")
+                continue
             chk.ob("R2.from_json_keys", f"corpus::{name}", f"{site}: from_json reads each field from its declared key, in declaration order", rd == want,
                    f"reads {rd}, declared {want}")
             chk.ob("R2.to_json_keys", f"corpus::{name}", f"{site}: to_json writes each field under its declared key, in declaration order", wr == want,
